@@ -373,6 +373,46 @@ func checkC15(job *Job, res *Result) {
 		if x.Err != "" {
 			res.Violate("C15/hang:password-http", x.Err, nil)
 		}
+		// ---- FOLLOW with leaderauth: wrong / unnecessary / right password of the leader
+		for _, fa := range []struct{ name, leaderPass, auth string; wantOK bool }{
+			{"leader has no password, follower sends one", "", "secret", false},
+			{"leader has a password, follower sends a wrong one", "pw", "wrong", false},
+			{"leader has a password, follower sends none", "pw", "", false},
+			{"leader has a password, follower sends it", "pw", "pw", true},
+		} {
+			fa := fa
+			x := runExec(job, freezeAllBut("follow", "Serve#2", "Serve#4"), func(x *Exec) {
+				L := x.Start("L", x.dir+"/L", 9001, nil)
+				lc := x.Dial(L.Addr)
+				lc.Do("SET", "k1", "a", "POINT", "1", "2")
+				if fa.leaderPass != "" {
+					lc.Do("CONFIG", "SET", "requirepass", fa.leaderPass)
+				}
+				F := x.Start("F", x.dir+"/F", 9002, nil)
+				fc := x.Dial(F.Addr)
+				if fa.auth != "" {
+					fc.Do("CONFIG", "SET", "leaderauth", fa.auth)
+				}
+				rep := fc.Do("FOLLOW", "127.0.0.1", "9001")
+				vsched.Quiesce()
+				it := c15Inst{Cmd: "FOLLOW", Wrapper: fa.name, Args: w("FOLLOW 127.0.0.1 9001")}
+				if len(vsched.Crashes) > 0 {
+					viol("follow-auth-crash", "FOLLOW crashed the server: "+vsched.Crashes[0].Value, it, "leaderauth")
+					return
+				}
+				if p := x.Dial(F.Addr).Do("PING"); p.String() != "+PONG" {
+					viol("follow-auth-server-gone", "after FOLLOW (reply "+vclip(rep.String(), 80)+") a new connection's PING replied "+p.String(), it, "leaderauth")
+				}
+				if fa.wantOK != (rep.String() == "+OK") {
+					viol("follow-auth-reply", fmt.Sprintf("FOLLOW replied %s, success expected: %v", vclip(rep.String(), 100), fa.wantOK), it, "leaderauth")
+				}
+				res.Evaluations++
+				res.DistinctS("leaderauth" + fa.name)
+			})
+			if x.Err != "" {
+				res.Violate("C15/hang-or-crash:leaderauth", x.Err+" ["+fa.name+"]", nil)
+			}
+		}
 		// ---- protected mode decided at run time: the password / protected-mode settings change while the server runs
 		for _, tr := range []struct{ name, cfg string; cmds [][]string; wantDenied bool }{
 			{"password removed", `{"requirepass":"pw"}`, [][]string{{"AUTH", "pw"}, {"CONFIG", "SET", "requirepass", ""}}, true},
